@@ -16,7 +16,7 @@ def jobs(only):
     if only in (None, "seeded"):
         for d in sorted(glob.glob(os.path.join(V, "seeded/*/"))):
             m = json.load(open(os.path.join(d, "meta.json")))
-            out.append((os.path.join(d, "patch.diff"), m["property"], 1))
+            out.append((os.path.join(d, "patch.diff"), m.get("caught_by", m["property"]), m.get("expected_check_rc", 1)))
     if only in (None, "benign"):
         mp = json.load(open(os.path.join(V, "dev/benign/MAP.json")))
         for f, ids in mp.items():
